@@ -6,7 +6,12 @@
                    .(sql.WhereClause)), every slice index and every explicit panic is a Panic
                    outcome unless the statement tree type makes it impossible
    parser_shape  : boolean; what sql.Parser guarantees: the select list is not empty, `*` occurs
-                   only as the whole select list, LIMIT / OFFSET are not negative
+                   only as the whole select list, LIMIT / OFFSET are not negative.
+                   PROVED of the parser model (Model/Parser.v, tied to sql/parser.go by the C09 / C10
+                   correspondence runs) for every token list: Proofs/ParserShape.v; the end-to-end
+                   corollaries C18_parsed_select_no_panic / C18_pipeline_select_no_panic at the END of
+                   this file discharge the hypothesis for every SELECT that Parse can return. The
+                   grammar has no subqueries, so that is every SELECT the engine ever evaluates.
    db_wf         : boolean; what storage.Fetch returns: every row has one value per column and
                    every column holds values of one Go type or nil
    ALL statements of that shape (any expression depth, ill-typed comparisons, avg() over
@@ -81,6 +86,11 @@ Proof. vm_compute. repeat split; reflexivity. Qed.
    SSelect: the session model answers OErr EOther for SELECT (its executor is modelled separately in
    Model/Select.v; its panic-freedom is C18_select_no_panic above), so the SELECT case here is trivial.
 
+   For PARSER OUTPUT the literal half of stmt_bounded is proved (end of this file,
+   Proofs/ParserLits.v / ParserStmtOk.v): integer literals are within int64 because Token.Val reads
+   them with strconv.Atoi, string literals are token texts; what remains is `file_bounded`, the 2^63
+   file-size bound of CREATE TABLE / INSERT, and "every raw token text is shorter than 4 GiB".
+
    C18_statement_full_statement drops stmt_bounded. Not proved: between the rows of a multi-row
    statement / the columns of a CREATE TABLE the proof carries `Rep`, whose preservation
    (RefineDML.st_insert_rep / st_update_rep, RefineFail.schema_row_step_rep) needs exactly these
@@ -144,7 +154,7 @@ Definition c18_evs : list sevent :=
 
 Definition c18_stmts : list stmt :=
   [SInsert "t" [] [[VStr "x"; VInt 1; VNull]];                               (* wrong types *)
-   SInsert "t" ["a"; "a"; "zz"] [[VInt 1; VInt 2; VInt 3]];                  (* duplicated / unknown columns: accepted *)
+   SInsert "t" ["a"; "a"; "zz"] [[VInt 1; VInt 2; VInt 3]];                  (* duplicated / unknown columns: refused *)
    SInsert "t" ["a"] [[VInt 1; VInt 2]];                                     (* column count *)
    SInsert "sys_pages" [] [[VStr "t"; VInt 0]];                              (* catalog table *)
    SUpdate "t" [("b", XCol (mkCol "" "a"))] None;                            (* SET from a column *)
@@ -163,11 +173,119 @@ Example C18_statement_nonvacuous :
   | (Ok s, _) =>
       forallb (stmt_bounded s) c18_stmts = true /\
       map (fun st => snd (sess_stmt s st)) c18_stmts =
-        [SOErr (SEStmt ETypeMismatch); SOOk; SOErr (SEStmt EColCount); SOErr (SEStmt EOther);
+        [SOErr (SEStmt ETypeMismatch); SOErr (SEStmt EOther); SOErr (SEStmt EColCount); SOErr (SEStmt EOther);
          SOErr (SEStmt ETmpUnsupported); SOErr (SEStmt ETypeMismatch); SOErr (SEStmt EIncompat);
          SOErr (SEStmt EFieldNotFound); SOErr (SEStmt EIncompat); SOErr (SEStmt EIncompat);
          SOErr (SEStmt ETableNotExist); SOErr (SEStmt ETableExists);
          SOErr SEDBNotExist; SOErr (SEStmt EOther); SOErr SEDBExists]
   | _ => False
   end.
+Proof. vm_compute. repeat split; reflexivity. Qed.
+
+(* ====================================================================================================
+   C18 FOR PARSER OUTPUT: the hypotheses on the statement, discharged for what sql.Parser returns.
+   Proofs: Proofs/ParserShape.v (shape of SELECTs), Proofs/ParserLits.v + ParserStmtOk.v (literals).
+
+   parse_tokens toks   : Model/Parser.v, sql.Parser.Parse on a TokenList (any type numbers, any texts)
+   parse_pipeline raws : engine/session.go parseSQL from the raw scanner tokens on (C09 / C10)
+   No bound on the number of tokens or the nesting of conditions. The grammar has no subqueries: SSelect
+   is built in one place (Parser.select_), reached only from the top-level SELECT branch.
+   Why the shape holds: SelectList recognises ASTRSK only as the first token of the list and returns
+   [Asterisk] at once; every other item is a set function or an OrCondition whose leaves are literals
+   and column references (`SELECT a, *` and `SELECT *, a` are ErrUnexpectedToken:
+   ParserShape.star_mixed_rejected); the item loop is do-while; LimitOffsetClause ends with the
+   ErrNegativeLimit / ErrNegativeOffset checks (the scanner makes no signed INT token, but a TokenList
+   with INT text "-1" is read by Atoi and rejected there: ParserShape.negative_limit_rejected). *)
+From Mkdb Require Import Model.Lexer Model.Parser Proofs.ParserShape Proofs.ParserLits Proofs.ParserStmtOk.
+
+Theorem C18_parser_guarantees_shape : forall toks q,
+  parse_tokens toks = POk (SSelect q) -> parser_shape q = true.
+Proof. exact parse_select_shape. Qed.
+Print Assumptions C18_parser_guarantees_shape.
+
+Theorem C18_pipeline_guarantees_shape : forall raws q,
+  parse_pipeline raws = POk (SSelect q) -> parser_shape q = true.
+Proof. exact pipeline_select_shape. Qed.
+Print Assumptions C18_pipeline_guarantees_shape.
+
+(* any fuel, classified tokens: the statement the other entry points reduce to *)
+Theorem C18_parse_f_guarantees_shape : forall fuel toks q,
+  parse_f fuel toks = POk (SSelect q) -> parser_shape q = true.
+Proof. exact parse_f_select_shape. Qed.
+Print Assumptions C18_parse_f_guarantees_shape.
+
+(* end to end: no SELECT that the parser returns can crash the executor on well-formed tables *)
+Theorem C18_parsed_select_no_panic : forall toks q db,
+  parse_tokens toks = POk (SSelect q) -> SelectSpec.db_wf db = true ->
+  forall what, Select.select q db <> Select.Panic what.
+Proof. intros toks q db E. exact (C18_select_no_panic db q (parse_select_shape toks q E)). Qed.
+Print Assumptions C18_parsed_select_no_panic.
+
+Theorem C18_pipeline_select_no_panic : forall raws q db,
+  parse_pipeline raws = POk (SSelect q) -> SelectSpec.db_wf db = true ->
+  forall what, Select.select q db <> Select.Panic what.
+Proof. intros raws q db E. exact (C18_select_no_panic db q (pipeline_select_shape raws q E)). Qed.
+Print Assumptions C18_pipeline_select_no_panic.
+
+(* literals of parsed statements are Go values: integers unconditionally ... *)
+Theorem C18_parsed_int_literals_int64 : forall raws st,
+  parse_pipeline raws = POk st -> stmt_ints_ok st = true.
+Proof. exact pipeline_int_literals_ok. Qed.
+Print Assumptions C18_parsed_int_literals_int64.
+
+(* ... and strings when no raw token text reaches 4 GiB: the `stmt_ok` of the store theorems *)
+Theorem C18_parsed_literals_ok : forall raws st,
+  raws_short raws = true -> parse_pipeline raws = POk st -> stmt_ok st = true.
+Proof. exact pipeline_literals_ok. Qed.
+Print Assumptions C18_parsed_literals_ok.
+
+Theorem C18_parsed_tokens_literals_ok : forall toks st,
+  tokens_short toks = true -> parse_tokens toks = POk st -> stmt_ok st = true.
+Proof. exact parse_literals_ok. Qed.
+Print Assumptions C18_parsed_tokens_literals_ok.
+
+(* any parsed statement in any reachable session state: only the file-size bound is left *)
+Theorem C18_parsed_statement_no_panic_partial : forall raws s st,
+  reachable s -> raws_short raws = true -> parse_pipeline raws = POk st ->
+  file_bounded s st = true -> snd (sess_stmt s st) <> SOPanic.
+Proof. exact parsed_statement_no_panic. Qed.
+Print Assumptions C18_parsed_statement_no_panic_partial.
+
+(* non-vacuity: raw tokens of
+     select u.a, o.b from t u left join s o on u.a = o.a where u.a >= 1 order by u.a desc limit 2 offset 1 ;
+   parse to a SELECT with a join, LIMIT and OFFSET, which runs on a NULL-bearing database *)
+Definition c18_raws : list rawtok :=
+  let I s := mkRaw RIdent s false in let O s := mkRaw ROther s false in let N s := mkRaw RInt s false in
+  [I "select"; I "u"; O "."; I "a"; O ","; I "o"; O "."; I "b"; I "from"; I "t"; I "u";
+   I "left"; I "join"; I "s"; I "o"; I "on"; I "u"; O "."; I "a"; O "="; I "o"; O "."; I "a";
+   I "where"; I "u"; O "."; I "a"; mkRaw ROther ">" true; O "="; N "1";
+   I "order"; I "by"; I "u"; O "."; I "a"; I "desc"; I "limit"; N "2"; I "offset"; N "1"; O ";"].
+
+Definition c18_parsed : select_stmt :=
+  mkSelect [mkDC (SPExpr (EVal (XCol (mkCol "u" "a")))) ""; mkDC (SPExpr (EVal (XCol (mkCol "o" "b")))) ""]
+           [TRJoin (TRName "t" (Some "u")) JLeft (TRName "s" (Some "o"))
+                   (EPred (XCol (mkCol "u" "a")) CEq (XCol (mkCol "o" "a")))]
+           (Some (EPred (XCol (mkCol "u" "a")) CGte (XLit (VInt 1)))) []
+           [mkSort (mkCol "u" "a") SDesc] true true 2 1.
+
+Definition c18_db : Select.db :=
+  [("t", ["a"; "x"], [[VInt 1; VStr "p"]; [VInt 2; VStr "q"]; [VInt 3; VNull]; [VInt 4; VStr "r"]]);
+   ("s", ["a"; "b"], [[VInt 1; VStr "one"]; [VInt 3; VStr "three"]; [VInt 3; VNull]])].
+
+Example C18_parsed_nonvacuous :
+  parse_pipeline c18_raws = POk (SSelect c18_parsed) /\
+  parse_tokens (wrap c18_raws) = POk (SSelect c18_parsed) /\
+  raws_short c18_raws = true /\ SelectSpec.db_wf c18_db = true /\
+  Select.select c18_parsed c18_db = Select.Ok ([("u", "a"); ("o", "b")], [[VInt 3; VStr "three"]; [VInt 3; VNull]]).
+Proof. vm_compute. repeat split; reflexivity. Qed.
+
+(* an INSERT / UPDATE with literals: within the hypotheses, and 2^63 is not a literal the parser returns *)
+Example C18_parsed_literals_nonvacuous :
+  let I s := mkRaw RIdent s false in let O s := mkRaw ROther s false in let N s := mkRaw RInt s false in
+  parse_pipeline [I "insert"; I "into"; I "t"; I "values"; O "("; N "9223372036854775807"; O ",";
+                  mkRaw RString "'x'" false; O ","; I "true"; O ")"]
+    = POk (SInsert "t" [] [[VInt 9223372036854775807; VStr "x"; VBool true]]) /\
+  parse_pipeline [I "insert"; I "into"; I "t"; I "values"; O "("; N "9223372036854775808"; O ")"] = PErr EAtoi /\
+  parse_pipeline [I "update"; I "t"; I "set"; I "a"; O "="; N "007"; I "where"; I "b"; O "="; mkRaw RString "'y'" false]
+    = POk (SUpdate "t" [("a", XLit (VInt 7))] (Some (EPred (XCol (mkCol "" "b")) CEq (XLit (VStr "y"))))).
 Proof. vm_compute. repeat split; reflexivity. Qed.
